@@ -1,6 +1,7 @@
 package main
 
 import (
+	"regexp"
 	"encoding/json"
 	"fmt"
 	"os"
@@ -387,11 +388,26 @@ func cmdCheck(args []string) int {
 		all = append(all, rep)
 		analysisReports = append(analysisReports, map[string]any{"name": r.Name, "holds": r.OK, "what": r.Desc, "detail": r.Detail})
 	}
+	// The ledger guards against contracts that silently stop applying (a renamed function, a vanished loop or
+	// clause). Parts of an obligation's name that follow the shape of the code rather than the contract are not
+	// compared: the ordinal of a call site (`at@f#2/label`), the back edge or inlining path a loop obligation
+	// was generated on (`@after:...`, `@inl:...`); frame obligations exist per heap the body touches and may
+	// come and go with harmless edits.
+	generatedNorm := map[string]bool{}
+	for k := range generated {
+		i := strings.Index(k, "|")
+		if i >= 0 {
+			generatedNorm[k[:i]+"|"+normObligationName(k[i+1:])] = true
+		}
+	}
 	for _, l := range ledger {
 		if genErr[l.Fn] {
 			continue // already reported once as a generator error for that function
 		}
-		if !generated[l.Fn+"|"+l.Name] {
+		if strings.HasPrefix(l.Name, "frame/") || strings.Contains(l.Name, "/frame-") {
+			continue
+		}
+		if !generated[l.Fn+"|"+l.Name] && !generatedNorm[l.Fn+"|"+normObligationName(l.Name)] {
 			fails = append(fails, failure{fn: l.Fn, name: l.Name, reason: "contract-target-missing: the ledger obligation was not generated (function, loop or clause vanished)"})
 		}
 	}
@@ -406,7 +422,7 @@ func cmdCheck(args []string) int {
 	isKnown := func(f failure) *KnownFinding {
 		for i := range known {
 			k := &known[i]
-			if (k.Property == id || inList(pc.AlsoTags, k.Property)) && k.Status == "known" && k.When == "" && k.Fn == f.fn && k.Obligation == f.name {
+			if (k.Property == id || inList(pc.AlsoTags, k.Property)) && k.Status == "known" && k.When == "" && k.Fn == f.fn && (k.Obligation == f.name || normObligationName(k.Obligation) == normObligationName(f.name)) {
 				return k
 			}
 		}
@@ -617,6 +633,20 @@ func cmdCheck(args []string) int {
 	return 0
 }
 
+
+var reSiteOrdinal = regexp.MustCompile(`^(at@[^#]*)#\d+`)
+
+// normObligationName strips the code-shape-dependent parts of an obligation name (see the ledger check).
+func normObligationName(n string) string {
+	if i := strings.Index(n, "@after:"); i >= 0 {
+		n = n[:i]
+	}
+	if i := strings.Index(n, "@inl:"); i >= 0 {
+		n = n[:i]
+	}
+	n = strings.TrimSuffix(n, "/known-case")
+	return reSiteOrdinal.ReplaceAllString(n, "$1")
+}
 
 func cmdReplay(args []string) int {
 	if len(args) < 1 {
